@@ -491,6 +491,16 @@ func runC05(ctx *runCtx) {
 			}
 		}
 	}
+	// the channel mutex itself against WS.Model.Mu (the tie of WS.Props.C05Mu)
+	{
+		var lines, expect, what []string
+		progs := 300
+		if ctx.thorough() {
+			progs = 4000
+		}
+		muDifferential(rep, newRng(ctx.seed, "c05mu"), progs, 30, &lines, &expect, &what)
+		askAndCompare(ctx, lines, expect, what, "channel-mutex-model-vs-impl")
+	}
 	if raceEnabled {
 		rep.count("race-detector-on")
 	}
